@@ -138,7 +138,7 @@ def check_level(ctx, chk, cf, o, e, lv):
     val = cn.norm(e["value_t"])
     # guard of the store relative to the success exit: evaluate the *term-level* guard
     ev = e["ev"]
-    guard_terms = [cn.norm(c) for c in ev.pc if c not in o.pc and c[0] != "inloop"]
+    guard_terms = [cn.norm(c) for c in ev.pc if c not in o.pc and c[0] not in ("inloop", "fact")]
     prev_s = f"state[{T}].access"
     bad = []
     und = None
